@@ -144,12 +144,31 @@ func cmdCheck(args []string) int {
 	outDir := filepath.Join(*verif, "out", *prop)
 	_ = os.RemoveAll(outDir)
 	_ = os.MkdirAll(outDir, 0o755)
-	var obls, canaries []*Obligation
+	// known findings and ledger
+	var kfs struct {
+		Findings []KnownFinding `json:"findings"`
+	}
+	if b, err := os.ReadFile(filepath.Join(*verif, "known_findings.json")); err == nil {
+		_ = json.Unmarshal(b, &kfs)
+	}
+	knownProp := map[string]string{} // obligation name -> property of the known finding
+	for _, kf := range kfs.Findings {
+		if kf.Status == "known" {
+			knownProp[kf.Obligation] = kf.Property
+		}
+	}
+	var obls, canaries, knownObls []*Obligation
 	for _, r := range results {
 		for _, o := range r.Script.Obls {
-			if o.Canary {
+			switch {
+			case o.Canary:
 				canaries = append(canaries, o)
-			} else {
+			case knownProp[o.Name] == *prop:
+				// the obligation of a recorded finding of this property: expected to fail
+				knownObls = append(knownObls, o)
+			case knownProp[o.Name] != "":
+				// a recorded finding of another property: reported there, not here
+			default:
 				obls = append(obls, o)
 			}
 		}
@@ -163,14 +182,22 @@ func cmdCheck(args []string) int {
 	ts := time.Now()
 	solveAll(obls, outDir, timeout, all, 8, seed)
 	solveAll(canaries, outDir, 2*time.Second, false, 8, seed)
-	solveSecs := time.Since(ts).Seconds()
-
-	// known findings and ledger
-	var kfs struct {
-		Findings []KnownFinding `json:"findings"`
+	for _, o := range knownObls {
+		o.NoRetry = true
 	}
-	if b, err := os.ReadFile(filepath.Join(*verif, "known_findings.json")); err == nil {
-		_ = json.Unmarshal(b, &kfs)
+	solveAll(knownObls, outDir, 5*time.Second, false, 8, seed)
+	solveSecs := time.Since(ts).Seconds()
+	var knownLines []string
+	for _, o := range knownObls {
+		for _, kf := range kfs.Findings {
+			if kf.Status == "known" && kf.Obligation == o.Name {
+				if o.Result.Verdict != "unsat" {
+					knownLines = append(knownLines, fmt.Sprintf("KNOWN-FINDING: property=%s %s [%s: obligation %s undischarged (%s)]", *prop, kf.What, kf.ID, o.Name, o.Result.Verdict))
+				} else {
+					knownLines = append(knownLines, fmt.Sprintf("NOTE recorded finding %s no longer reproduces: obligation %s is discharged", kf.ID, o.Name))
+				}
+			}
+		}
 	}
 	ledger := Ledger{Props: map[string][]string{}}
 	if b, err := os.ReadFile(filepath.Join(*verif, "obligations.lock.json")); err == nil {
@@ -184,7 +211,10 @@ func cmdCheck(args []string) int {
 	var solverTime float64
 	discharged := 0
 	generated := map[string]bool{}
-	var lines []string
+	lines := append([]string{}, knownLines...)
+	for _, o := range knownObls {
+		generated[o.Name] = true
+	}
 	replayDir := filepath.Join(*verif, "replays", *prop)
 	_ = os.RemoveAll(replayDir)
 	violate := func(name, clause string, detail map[string]any) {
